@@ -123,6 +123,45 @@ def run(ctx):
                     ctx.fn(b)
     ctx.floor("loops that reuse a parser state", n_loop_sites, 1)
 
+    # ---------------- S-ALIGN: one result per input, in input order
+    ctx.rule("S-ALIGN", "parse_multi yields exactly one result per input at the input's own position: on every path around the input loop "
+             "exactly one `results.push(from_parse((), &mut state))` is executed (no input is skipped, none contributes twice), and the "
+             "returned vector is that `results`")
+    pm = f.mir_fn("parse_multi", module="impl_enum::parser")
+    ctx.fn(pm)
+    gpm = mir.cfg(pm)
+    loops_ = gpm.loops()
+    ok_align, why = False, "no input loop found"
+    for h, blocks, tails in loops_:
+        nexts = [bi for bi in blocks if pm["blocks"][bi]["term"]["k"] == "Call" and mir.callee_name(pm["blocks"][bi]["term"]) == "next"]
+        pushes = [bi for bi in blocks if pm["blocks"][bi]["term"]["k"] == "Call" and mir.callee_name(pm["blocks"][bi]["term"]) == "push"]
+        if not nexts:
+            continue
+        if len(pushes) != 1:
+            why = "%d push sites in the input loop" % len(pushes)
+            continue
+        pb = pushes[0]
+        pt = pm["blocks"][pb]["term"]
+        src = gpm.resolve_operand(pt["args"][1])
+        from_parse = src[0][0] == "call" and mir.callee_name(src[0][1]) == "from_parse"
+        # every cycle through the loop passes the push block: remove it and the rest must be acyclic
+        import progress
+        rest = set(blocks) - {pb}
+        cyc = progress.has_cycle(rest, {u: [v for v in gpm.succ[u] if v in rest] for u in rest})
+        ok_align = from_parse and not cyc
+        why = "a path around the input loop skips the push" if cyc else ("pushed value is not the from_parse result" if not from_parse else "")
+        # the vector returned is the one pushed to
+        vec_root = gpm.resolve_operand(pt["args"][0])
+        rets = [bi for bi in gpm.reach if pm["blocks"][bi]["term"]["k"] == "Return"]
+        ret_src = None
+        for bi in gpm.reach:
+            for st_ in pm["blocks"][bi]["stmts"]:
+                if st_["k"] == "Assign" and st_["place"]["local"] == 0 and not st_["place"]["proj"] and st_["rv"]["k"] == "Use":
+                    ret_src = gpm.resolve_operand(st_["rv"]["op"])
+        if ok_align and (ret_src is None or ret_src[0] != vec_root[0]):
+            ok_align, why = False, "the returned vector is not the one results are pushed to"
+    ctx.ob("S-ALIGN", "parse_multi: one pushed result per input", ok_align, why, "%s:%s" % (pm["span"]["file"], pm["span"]["line"]))
+
     # ---------------- S-FRESH
     ctx.rule("S-FRESH", "every other entry point builds its ParseState by the one struct aggregate in from_env (all fields initialised, "
              "mid_result from NarseseOptions::new) and uses it for one parse; parse and parse_chars converge on from_env + ParseState::parse "
